@@ -97,7 +97,13 @@ def cases(tier, seed):
                 for m in muts:
                     yield {"cls": cls, "base": base, "bi": bi, "origin": origin, "muts": [m], "fam": "cyc" if cls in CYC else "dag"}
                 if tier == "thorough":
+                    def grp(m):
+                        if m in ("negative", "missing", "nonconserving"):
+                            return "weights"
+                        return m.split("_")[0] if m.split("_")[0] in ("k", "coverage", "cons", "scale") else m
                     for m1, m2 in itertools.combinations(muts, 2):
+                        if grp(m1) == grp(m2) or {grp(m1), grp(m2)} == {"coverage", "cons"}:
+                            continue  # two violations of the same parameter overwrite each other
                         yield {"cls": cls, "base": base, "bi": bi, "origin": origin, "muts": [m1, m2], "fam": "cyc" if cls in CYC else "dag"}
 
 
